@@ -363,8 +363,8 @@ class C19(PropertyCheck):
         "estimator objects: only documented public attributes are assigned, to values the constructor would accept "
         "(the constructor's argument checks are not repeated by an assignment); a distribution's constructor tensor "
         "edited in place must leave ONE distribution (the new or the old values) - torch's lazy_property convention "
-        "(a cached derived attribute is stale) is the known finding "
-        "C19.distributions.lazy_attribute_stale_after_inplace_edit",
+        "(a cached derived attribute is stale) is recognised and NOT judged (outside C19's quantifier; "
+        "observation in design_notes/C19.md)",
         "a Bernoulli / LogisticBernoulli logit is finite (torch's own Bernoulli.log_prob is NaN at an "
         "infinite logit; arg_constraints say `real`); a categorical logit may be -inf",
         "where a class has logit -inf the relaxed distribution has no density (z_k = -inf almost surely): the "
@@ -4236,6 +4236,11 @@ class C19(PropertyCheck):
         # the specific known behaviour (torch's lazy_property convention): everything is the distribution of
         # the new values except the derived attribute that was cached before the edit, and what reads it
         known = impl["cached"] and not self._pe_diff(case, impl["obj"], impl["conv"])
+        if known:
+            # torch.distributions' own lazy_property convention, on an input (a parameter tensor edited in place
+            # after construction) that C19 does not quantify over: an OBSERVATION, not a failure of C19
+            # (design_notes/C19.md, DESIGN 11.3b) - only other mixtures of old and new are reported
+            return []
         what = case.get("param", case.get("edit"))
         return [(f"{name}({what}= a tensor of shape {case['shape']}) after the operations {case['history']} (`edit`: the "
                  f"tensor it was constructed from is edited in place) is neither the distribution of the new values "
